@@ -770,11 +770,14 @@ def h1_parts(tier):
                         if ty in (2, 3) and not d:
                             continue
                         out.append(dict(L=L, type=ty, ns=ns, id=hid, data=d))
+    if tier != 'quick':
+        # every Unicode code point at a shorter length
+        out += [dict(L=8, type=ty, ns='sym', id=True, data=True, alphabet='full') for ty in (0, 2, 4)]
     return out
 
 
 def h2_parts(tier):
-    L = 8 if tier == 'quick' else 14
+    L = 10 if tier == 'quick' else 14
     out = [dict(L=L, cls=['empty']), dict(L=L, cls=['other'])]
     for ty in range(7):
         for s in ('end', 'digit', 'slash', 'other'):
@@ -808,7 +811,7 @@ META = dict(
                 'completely arbitrary frames.',
     bounds={'quick': 'header round trip: every type x namespace {none, "/", symbolic} x id {none, symbolic n>=0} x payload '
                      'text {none, symbolic}, total frame <= 10 code points, attachment counts {1,3,12}; differential '
-                     'decode: arbitrary frame <= 8 code points',
+                     'decode: arbitrary frame <= 10 code points',
             'thorough': 'frame <= 16 (round trip, counts {1,2,3,10,11,12}) / <= 14 (differential)'},
     outside=['top-level numeric payloads on CONNECT/DISCONNECT/CONNECT_ERROR (Packet(4, data=12) encodes to "412", which '
              'every v5 decoder reads as id 12: the format itself is ambiguous there)', 'frames longer than L',
